@@ -333,6 +333,59 @@ func c05(c *core.Ctx) {
 		}
 	}
 
+	// dirty-set order of the periodic writer
+	rD := c.Rule("C05.dirtyorder", "the function that hands the pending records to the chronicler removes them from the pending set (treasuresWaitingForWriter) before it calls Write, never after: a Save that lands while Write runs re-marks the record and the next pass persists it", 2)
+	{
+		pending := p.MustField(pkgSwamp, "swamp", "treasuresWaitingForWriter")
+		n := 0
+		for _, f := range p.FuncsIn(pkgSwamp) {
+			if f.Decl.Body == nil {
+				continue
+			}
+			info := f.Info()
+			var writes []*ast.CallExpr
+			core.Calls(f.Decl.Body, false, func(call *ast.CallExpr) {
+				if core.MethodNamed(info, call, pkgChron, []string{"Chronicler"}, "Write") {
+					writes = append(writes, call)
+				}
+			})
+			if len(writes) == 0 {
+				continue
+			}
+			c.Touch(f)
+			fl := core.NewFlow(p, info, f.Decl.Body)
+			isClear := core.NodeHasCall(func(c2 *ast.CallExpr) bool {
+				fo := core.Callee(info, c2)
+				if fo == nil || core.FieldOf(info, core.RecvExpr(c2)) != pending {
+					return false
+				}
+				switch fo.Name() {
+				case "Delete", "Reset", "ShiftOne", "ShiftMany", "CloneUnorderedTreasures", "CloneOrderedTreasures":
+					return true
+				}
+				return false
+			})
+			for _, w := range writes {
+				n++
+				lw := fl.MustLocate(w)
+				after, _ := fl.CanReach(lw, nil, nil, isClear)
+				rD.Check(!after, f.Key+":no-clear-after-Write", w.Pos(), "pending marks are not cleared after the write", "records are removed from the pending set after chronicler.Write: a Save acknowledged while Write was running (after that record was encoded) loses its pending mark and is never persisted; the old value comes back after close and re-summon")
+				before := false
+				fl.Nodes(func(l core.Loc, nd ast.Node) {
+					if isClear(nd) {
+						if r, _ := fl.CanReach(l, nil, nil, core.ContainsNode(w)); r {
+							before = true
+						}
+					}
+				})
+				rD.Check(before, f.Key+":clear-before-Write", w.Pos(), "pending marks cleared before the write", "the pending set is never cleared before chronicler.Write")
+			}
+		}
+		if n == 0 {
+			rD.Bad(pkgSwamp+":chronicler.Write", token.NoPos, "no call to Chronicler.Write found in the swamp package")
+		}
+	}
+
 	// units
 	rU := c.Rule("C05.units", "created/updated/expiry are stored as UnixNano by their setters and leave the gateway through time.Unix(0, x)", 5)
 	for _, k := range []string{"SetCreatedAt", "SetModifiedAt", "SetExpirationTime"} {
